@@ -1446,13 +1446,19 @@ def family_stream(ctx):
                     run('term_subs-family', g, texts, kind, texts[k:] + texts[:k], mk, label)
 
 
-def idc_stream(ctx):
+def idc_eval(ctx, box):
+    """the Coq side of idc_stream (run in a helper thread: it only waits for coqtop)"""
+    box['val'], box['out'] = ctx.coq_eval(
+        'c19_idc', 'From LV Require Import Recons.Recons Recons.GenBase.',
+        'map (fun n => (ascii_cat (Ascii.ascii_of_nat n), is_id_continue (Ascii.ascii_of_nat n))) (seq 0 128)')
+
+
+def idc_stream(ctx, box):
     """is_id_continue on the ASCII range: lark.utils.is_id_continue and unicodedata.category against the model's
     is_id_continue and the category table behind the regenerated category tuple (Recons/GenBase.ascii_cat)"""
     import unicodedata
     from lark.utils import is_id_continue
-    val, out = ctx.coq_eval('c19_idc', 'From LV Require Import Recons.Recons Recons.GenBase.',
-                            'map (fun n => (ascii_cat (Ascii.ascii_of_nat n), is_id_continue (Ascii.ascii_of_nat n))) (seq 0 128)')
+    val, out = box.get('val'), box.get('out')
     got = re.findall(r'\(\s*"(\w\w|\?\?)",\s*(true|false)\s*\)', val or '')
     if len(got) != 128:
         ctx.violation('correspondence:coq-eval', {'error': (out or '')[-400:]}, False, 'is_id_continue table not evaluated')
@@ -1471,8 +1477,11 @@ def idc_stream(ctx):
 
 def correspond(ctx):
     rng = ctx.rng
+    import threading
+    idc_box = {}
+    idc_thread = threading.Thread(target=idc_eval, args=(ctx, idc_box))
+    idc_thread.start()
     name_collision_stream(ctx)
-    idc_stream(ctx)
     family_stream(ctx)
     lex_cases = []
     rx_cases, rx_meta = [], []
@@ -1585,6 +1594,8 @@ def correspond(ctx):
             metas.append(r['meta'])
             for v in r['viol']:
                 ctx.violation('roundtrip-oracle', v, True, v['detail'])
+    idc_thread.join()
+    idc_stream(ctx, idc_box)
     # the mini-lexer model used by H_relex_refuted against lark's basic lexer (literal-only grammars and F12)
     for lc in lex_case(EXOTIC[0][1], ['+ +', '++', '+++', '+ ++ +']):
         lex_cases.append(lc)
